@@ -46,24 +46,31 @@ def suite_by_name(name):
 
 def frequency_test(r, n_seeds):
     """k tied target/decoy groups, targets listed first: P(first ranked group is a target) must be 1/2."""
-    groups = [["T1"], ["T2"], ["T3"], ["REV__D1"], ["REV__D2"], ["REV__D3"]]
-    infos = [[["1/1024", f"PEP{i}K", list(g)]] for i, g in enumerate(groups)]
-    scores = ["2/1"] * 6
     results = {}
-    for strat in ("picked_group", "classic", "picked"):
-        first_target = 0
-        for seed in range(n_seeds):
-            out = run_competition(strat, groups, infos, scores, seed + 1000 * r.seed)
-            if "ok" in out and not out["ok"][0][0][0].startswith("REV__"):
-                first_target += 1
-        z = (first_target - n_seeds / 2) / math.sqrt(n_seeds / 4)
-        results[strat] = {"seeds": n_seeds, "target_first": first_target, "z": round(z, 2)}
-        if abs(z) > 6:
-            r.violation("property-failure",
-                        {"suite": "frequency_test", "strategy": strat, "groups": groups, "scores": scores,
-                         "seeds": [1000 * r.seed, 1000 * r.seed + n_seeds], "target_first": first_target},
-                        found_input=True,
-                        what=f"tie order is biased: target ranked first in {first_target}/{n_seeds} runs (z={z:.1f})")
+    scenarios = {
+        "targets_vs_decoys": [["T1"], ["T2"], ["T3"], ["REV__D1"], ["REV__D2"], ["REV__D3"]],
+        # placeholder (OBSOLETE__) targets tie with regular decoys after the rescue step
+        "placeholder_targets_vs_decoys": [["OBSOLETE__T1"], ["OBSOLETE__T2"], ["OBSOLETE__T3"], ["REV__D1"], ["REV__D2"], ["REV__D3"]],
+        "decoys_listed_first": [["REV__D1"], ["REV__D2"], ["REV__D3"], ["T1"], ["T2"], ["T3"]],
+    }
+    for sname, groups in scenarios.items():
+        infos = [[["1/1024", f"PEP{i}K", list(g)]] for i, g in enumerate(groups)]
+        scores = ["2/1"] * 6
+        for strat in ("picked_group", "classic", "picked"):
+            first_target = 0
+            for seed in range(n_seeds):
+                out = run_competition(strat, groups, infos, scores, seed + 1000 * r.seed)
+                if "ok" in out and "REV__" not in out["ok"][0][0][0]:
+                    first_target += 1
+            z = (first_target - n_seeds / 2) / math.sqrt(n_seeds / 4)
+            results[f"{sname}/{strat}"] = {"seeds": n_seeds, "target_first": first_target, "z": round(z, 2)}
+            if abs(z) > 6 and not results.get("reported"):
+                results["reported"] = True
+                r.violation("property-failure",
+                            {"suite": "frequency_test", "scenario": sname, "strategy": strat, "groups": groups, "scores": scores,
+                             "seeds": [1000 * r.seed, 1000 * r.seed + n_seeds], "target_first": first_target},
+                            found_input=True,
+                            what=f"tie order is biased ({sname}, {strat}): target ranked first in {first_target}/{n_seeds} runs (z={z:.1f})")
     r.extra["statistical_support"] = results
 
 
@@ -75,4 +82,4 @@ def run(r: core.Runner):
     s = SUITES[0]
     install_classifier(r, s)
     r.run_suite(s)
-    frequency_test(r, core.tier_n(r.tier, 400, 4000))
+    frequency_test(r, core.tier_n(r.tier, 300, 3000))
